@@ -169,6 +169,12 @@ fn env() -> Result<Env, String> {
     let model = raw_model();
     let emb = VfsPath::new(EmbeddedFS::<Fixture>::new());
     check_second_type("constructed again after the main fixture's filesystem")?;
+    // the Default constructor is a public way to obtain the same filesystem
+    let by_default = VfsPath::new(<EmbeddedFS<Fixture> as Default>::default());
+    let sd = snapshot(&by_default);
+    if sd.tree != model {
+        return Err(format!("EmbeddedFS::default() does not show the embedded folder: {:?}", diff_trees(&model, &sd.tree).into_iter().take(4).collect::<Vec<_>>()));
+    }
     let phys = VfsPath::new(PhysicalFS::new(fixture_dir()));
     let s = snapshot(&emb);
     Ok(Env { emb, phys, model, base_snap: s.tree })
